@@ -3,7 +3,7 @@
    ascii stays the 8-boolean constructor, N/Z/positive/nat stay inductive. No Extract Constant,
    no Extract Inductive of our own. *)
 From TH Require Import Base.Bytes Http.Response Http.ClientSpec Http.C05Spec Http.Oracles
-                       Http.Request Http.Body Http.Serve Http.Ahead Conc.Instances.
+                       Http.Request Http.Body Http.Serve Http.Ahead Conc.Instances Conc.ServerApi Conc.SeqWriterCheck.
 From Coq Require Import Extraction ExtrOcamlBasic.
 Extraction Language OCaml.
 Extraction "../ocaml/model.ml"
@@ -11,4 +11,5 @@ Extraction "../ocaml/model.ml"
   choose_te chunked_threshold
   parse_response parse_stream te_entries ref_choice oracle_c05 oracle_c19 oracle_c04
   serve fixed asfound read_head framing last_request
-  mq_init mq_step tp_init tp_step sw_init sw_step ahead ahead_two sd_init sd_step cc_init cc_step cc_closed mq_step_replay tp_step_replay.
+  mq_init mq_step tp_init tp_step sw_init sw_step ahead ahead_two sd_init sd_step cc_init cc_step cc_closed mq_step_replay tp_step_replay
+  su_op su_res su_run su_spec sw_system_ok_b.
